@@ -4,23 +4,21 @@ semantics (`Spec.eval`, guard on) — for every program, stack, protected prefix
 namespace Interp
 open Stack
 
-theorem bind_ne_err {α β : Type} {r : Res α} {f : α → Res β} (h : r.bind f ≠ .err) : r ≠ .err := by
-  intro e; subst e; exact h rfl
-
 def ExecOK (env : Env) (f : Nat) : Prop :=
-  ∀ i pre st, Spec.eval true env f i st ≠ .err →
+  ∀ i pre st, Spec.eval true env f i st ≠ .stuck → Spec.eval true env f i st ≠ .offguard →
     Impl.exec env f i (stk pre st) = (Spec.eval true env f i st).map' (stk pre)
 
 def SeqOK (env : Env) (f : Nat) : Prop :=
-  ∀ is pre st, Spec.evalSeq true env f is st ≠ .err →
+  ∀ is pre st, Spec.evalSeq true env f is st ≠ .stuck → Spec.evalSeq true env f is st ≠ .offguard →
     Impl.execSeq env f is (stk pre st) = (Spec.evalSeq true env f is st).map' (stk pre)
 
 def IterOK (env : Env) (f : Nat) : Prop :=
-  ∀ body xs pre st, Spec.evalIter true env f body xs st ≠ .err →
+  ∀ body xs pre st, Spec.evalIter true env f body xs st ≠ .stuck → Spec.evalIter true env f body xs st ≠ .offguard →
     Impl.iterLoop env f body xs (stk pre st) = (Spec.evalIter true env f body xs st).map' (stk pre)
 
 def MapOK (env : Env) (f : Nat) : Prop :=
-  ∀ body isMap xs pre st, Spec.evalMap true env f body isMap xs st ≠ .err →
+  ∀ body isMap xs pre st, Spec.evalMap true env f body isMap xs st ≠ .stuck →
+    Spec.evalMap true env f body isMap xs st ≠ .offguard →
     Impl.mapLoop env f body isMap xs (stk pre st)
       = (Spec.evalMap true env f body isMap xs st).map' (fun p => (p.1, stk pre p.2))
 
@@ -29,74 +27,94 @@ variable (env : Env) (f : Nat) (hE : ExecOK env f) (hS : SeqOK env f) (hI : Iter
 include hE
 
 theorem seq_succ (hS : SeqOK env f) : SeqOK env (f + 1) := by
-  intro is pre st hr
+  intro is pre st hr hg
   cases is with
   | nil => simp [Impl.execSeq, Spec.evalSeq]
   | cons i is =>
-    simp only [Impl.execSeq, Spec.evalSeq] at hr ⊢
-    have h1 := bind_ne_err hr
-    rw [hE i pre st h1]
+    simp only [Impl.execSeq, Spec.evalSeq] at hr hg ⊢
+    have h1 := bind_ne_stuck hr
+    have g1 := bind_ne_offguard hg
+    rw [hE i pre st h1 g1]
     cases hq : Spec.eval true env f i st with
-    | err => exact absurd hq h1
-    | failed v => simp
+    | stuck => exact absurd hq h1
+    | failed _ => simp
+    | rtfail => simp
+    | oof => simp
+    | offguard => simp
     | ok st' =>
-      simp only [hq, rbind_ok] at hr
+      simp only [hq, rbind_ok] at hr hg
       simp only [map'_ok, Res.bind_ok, rbind_ok]
-      exact hS is pre st' hr
+      exact hS is pre st' hr hg
 
 theorem iter_succ (hI : IterOK env f) : IterOK env (f + 1) := by
-  intro body xs pre st hr
+  intro body xs pre st hr hg
   cases xs with
   | nil => simp [Impl.iterLoop, Spec.evalIter]
   | cons x xs =>
-    simp only [Impl.iterLoop, Spec.evalIter, push_mk] at hr ⊢
-    have h1 := bind_ne_err hr
-    rw [hE body pre (x :: st) h1]
+    simp only [Impl.iterLoop, Spec.evalIter, push_mk] at hr hg ⊢
+    have h1 := bind_ne_stuck hr
+    have g1 := bind_ne_offguard hg
+    rw [hE body pre (x :: st) h1 g1]
     cases hq : Spec.eval true env f body (x :: st) with
-    | err => exact absurd hq h1
-    | failed v => simp
+    | stuck => exact absurd hq h1
+    | failed _ => simp
+    | rtfail => simp
+    | oof => simp
+    | offguard => simp
     | ok st' =>
-      simp only [hq, rbind_ok] at hr
+      simp only [hq, rbind_ok] at hr hg
       simp only [map'_ok, Res.bind_ok, rbind_ok]
-      exact hI body xs pre st' hr
+      exact hI body xs pre st' hr hg
 
 theorem map_succ (hM : MapOK env f) : MapOK env (f + 1) := by
-  intro body isMap xs pre st hr
+  intro body isMap xs pre st hr hg
   cases xs with
   | nil => simp [Impl.mapLoop, Spec.evalMap]
   | cons x xs =>
-    simp only [Impl.mapLoop, Spec.evalMap, push_mk] at hr ⊢
-    have h1 := bind_ne_err hr
-    rw [hE body pre (x :: st) h1]
+    simp only [Impl.mapLoop, Spec.evalMap, push_mk] at hr hg ⊢
+    have h1 := bind_ne_stuck hr
+    have g1 := bind_ne_offguard hg
+    rw [hE body pre (x :: st) h1 g1]
     cases hq : Spec.eval true env f body (x :: st) with
-    | err => exact absurd hq h1
-    | failed v => simp
+    | stuck => exact absurd hq h1
+    | failed _ => simp
+    | rtfail => simp
+    | oof => simp
+    | offguard => simp
     | ok st' =>
-      simp only [hq, rbind_ok] at hr
+      simp only [hq, rbind_ok] at hr hg
       simp only [map'_ok, Res.bind_ok]
       cases st' with
       | nil => simp at hr
       | cons y st'' =>
-        simp only [pop1_mk_cons, Res.bind_ok] at hr ⊢
+        simp only [pop1_mk_cons, Res.bind_ok] at hr hg ⊢
         -- the kept item
         cases isMap with
         | false =>
-          simp only [rbind_ok] at hr ⊢
-          have h2 := bind_ne_err hr
-          rw [hM body false xs pre st'' h2]
+          simp only [rbind_ok] at hr hg ⊢
+          have h2 := bind_ne_stuck hr
+          have g2 := bind_ne_offguard hg
+          rw [hM body false xs pre st'' h2 g2]
           cases hq2 : Spec.evalMap true env f body false xs st'' with
-          | err => exact absurd hq2 h2
-          | failed v => simp
+          | stuck => exact absurd hq2 h2
+          | failed _ => simp
+          | rtfail => simp
+          | oof => simp
+          | offguard => simp
           | ok p => obtain ⟨ys, st3⟩ := p; simp
         | true =>
           cases x <;> first | (simp at hr; done) | skip
           rename_i k v
-          simp only [rbind_ok] at hr ⊢
-          have h2 := bind_ne_err hr
-          rw [hM body true xs pre st'' h2]
+          simp only [rbind_ok] at hr hg ⊢
+          have h2 := bind_ne_stuck hr
+          have g2 := bind_ne_offguard hg
+          rw [hM body true xs pre st'' h2 g2]
           cases hq2 : Spec.evalMap true env f body true xs st'' with
-          | err => exact absurd hq2 h2
-          | failed v => simp
+          | stuck => exact absurd hq2 h2
+          | failed _ => simp
+          | rtfail => simp
+          | oof => simp
+          | offguard => simp
           | ok p => obtain ⟨ys, st3⟩ := p; simp
 
 end
@@ -110,72 +128,86 @@ variable (env : Env) (f : Nat) (hE : ExecOK env f)
 include hE
 
 theorem exec_DIPN (n : Nat) (body : Instr) (pre st : List Val)
-    (hr : Spec.eval true env (f + 1) (.DIPN n body) st ≠ .err) :
+    (hr : Spec.eval true env (f + 1) (.DIPN n body) st ≠ .stuck)
+    (hg : Spec.eval true env (f + 1) (.DIPN n body) st ≠ .offguard) :
     Impl.exec env (f + 1) (.DIPN n body) (stk pre st) = (Spec.eval true env (f + 1) (.DIPN n body) st).map' (stk pre) := by
-  simp only [Impl.exec, Spec.eval] at hr ⊢
+  simp only [Impl.exec, Spec.eval] at hr hg ⊢
   by_cases hn : n ≤ st.length
-  · simp only [hn, if_true] at hr ⊢
-    have h1 := bind_ne_err hr
+  · simp only [hn, if_true] at hr hg ⊢
+    have h1 := bind_ne_stuck hr
+    have g1 := bind_ne_offguard hg
     rw [protect_mk pre st n hn]
     simp only [Res.bind_ok]
-    rw [hE body (pre ++ st.take n) (st.drop n) h1]
+    rw [hE body (pre ++ st.take n) (st.drop n) h1 g1]
     cases hq : Spec.eval true env f body (st.drop n) with
-    | err => exact absurd hq h1
-    | failed v => simp
+    | stuck => exact absurd hq h1
+    | failed _ => simp
+    | rtfail => simp
+    | oof => simp
+    | offguard => simp
     | ok st' =>
       have hl : (st.take n).length = n := by rw [List.length_take]; omega
       simp [restore_mk' pre (st.take n) st' n hl]
   · simp [hn] at hr
 
 theorem exec_DIP (body : Instr) (pre st : List Val)
-    (hr : Spec.eval true env (f + 1) (.DIP body) st ≠ .err) :
+    (hr : Spec.eval true env (f + 1) (.DIP body) st ≠ .stuck)
+    (hg : Spec.eval true env (f + 1) (.DIP body) st ≠ .offguard) :
     Impl.exec env (f + 1) (.DIP body) (stk pre st) = (Spec.eval true env (f + 1) (.DIP body) st).map' (stk pre) := by
   cases st with
   | nil => (exfalso; apply hr; simp [Spec.eval, Spec.step])
   | cons x st =>
-    simp only [Impl.exec, Spec.eval] at hr ⊢
-    have h1 := bind_ne_err hr
+    simp only [Impl.exec, Spec.eval] at hr hg ⊢
+    have h1 := bind_ne_stuck hr
+    have g1 := bind_ne_offguard hg
     rw [protect_mk pre (x :: st) 1 (by simp)]
     simp only [Res.bind_ok, List.take_succ_cons, List.take_zero, List.drop_succ_cons, List.drop_zero]
-    rw [hE body (pre ++ [x]) st h1]
+    rw [hE body (pre ++ [x]) st h1 g1]
     cases hq : Spec.eval true env f body st with
-    | err => exact absurd hq h1
-    | failed v => simp
+    | stuck => exact absurd hq h1
+    | failed _ => simp
+    | rtfail => simp
+    | oof => simp
+    | offguard => simp
     | ok st' => simp [restore_mk' pre [x] st' 1 rfl]
 
 theorem exec_IF (bt bf : Instr) (pre st : List Val)
-    (hr : Spec.eval true env (f + 1) (.IF bt bf) st ≠ .err) :
+    (hr : Spec.eval true env (f + 1) (.IF bt bf) st ≠ .stuck)
+    (hg : Spec.eval true env (f + 1) (.IF bt bf) st ≠ .offguard) :
     Impl.exec env (f + 1) (.IF bt bf) (stk pre st) = (Spec.eval true env (f + 1) (.IF bt bf) st).map' (stk pre) := by
   rcases st with _ | ⟨c, st⟩
   · (exfalso; apply hr; simp [Spec.eval, Spec.step])
   · cases c <;> first | (exfalso; apply hr; simp [Spec.eval, Spec.step]; done) | skip
     rename_i b
-    simp only [Impl.exec, Spec.eval, pop1_mk_cons, Res.bind_ok] at hr ⊢
-    exact hE _ pre st hr
+    simp only [Impl.exec, Spec.eval, pop1_mk_cons, Res.bind_ok] at hr hg ⊢
+    exact hE _ pre st hr hg
 
 theorem exec_IF_NONE (bn bs : Instr) (pre st : List Val)
-    (hr : Spec.eval true env (f + 1) (.IF_NONE bn bs) st ≠ .err) :
+    (hr : Spec.eval true env (f + 1) (.IF_NONE bn bs) st ≠ .stuck)
+    (hg : Spec.eval true env (f + 1) (.IF_NONE bn bs) st ≠ .offguard) :
     Impl.exec env (f + 1) (.IF_NONE bn bs) (stk pre st) = (Spec.eval true env (f + 1) (.IF_NONE bn bs) st).map' (stk pre) := by
   rcases st with _ | ⟨c, st⟩
   · (exfalso; apply hr; simp [Spec.eval, Spec.step])
   · cases c <;> first | (exfalso; apply hr; simp [Spec.eval, Spec.step]; done) | skip
-    · simp only [Impl.exec, Spec.eval, pop1_mk_cons, Res.bind_ok, push_mk] at hr ⊢
-      exact hE _ pre _ hr
-    · simp only [Impl.exec, Spec.eval, pop1_mk_cons, Res.bind_ok] at hr ⊢
-      exact hE _ pre st hr
+    · simp only [Impl.exec, Spec.eval, pop1_mk_cons, Res.bind_ok, push_mk] at hr hg ⊢
+      exact hE _ pre _ hr hg
+    · simp only [Impl.exec, Spec.eval, pop1_mk_cons, Res.bind_ok] at hr hg ⊢
+      exact hE _ pre st hr hg
 
 theorem exec_IF_LEFT (bl br : Instr) (pre st : List Val)
-    (hr : Spec.eval true env (f + 1) (.IF_LEFT bl br) st ≠ .err) :
+    (hr : Spec.eval true env (f + 1) (.IF_LEFT bl br) st ≠ .stuck)
+    (hg : Spec.eval true env (f + 1) (.IF_LEFT bl br) st ≠ .offguard) :
     Impl.exec env (f + 1) (.IF_LEFT bl br) (stk pre st) = (Spec.eval true env (f + 1) (.IF_LEFT bl br) st).map' (stk pre) := by
   rcases st with _ | ⟨c, st⟩
   · (exfalso; apply hr; simp [Spec.eval, Spec.step])
   · cases c <;> first | (exfalso; apply hr; simp [Spec.eval, Spec.step]; done) | skip
     all_goals
-      simp only [Impl.exec, Spec.eval, pop1_mk_cons, Res.bind_ok, push_mk] at hr ⊢
-      exact hE _ pre _ hr
+      simp only [Impl.exec, Spec.eval, pop1_mk_cons, Res.bind_ok, push_mk] at hr hg ⊢
+      exact hE _ pre _ hr hg
 
 theorem exec_IF_CONS (bc bn : Instr) (pre st : List Val)
-    (hr : Spec.eval true env (f + 1) (.IF_CONS bc bn) st ≠ .err) :
+    (hr : Spec.eval true env (f + 1) (.IF_CONS bc bn) st ≠ .stuck)
+    (hg : Spec.eval true env (f + 1) (.IF_CONS bc bn) st ≠ .offguard) :
     Impl.exec env (f + 1) (.IF_CONS bc bn) (stk pre st) = (Spec.eval true env (f + 1) (.IF_CONS bc bn) st).map' (stk pre) := by
   rcases st with _ | ⟨c, st⟩
   · (exfalso; apply hr; simp [Spec.eval, Spec.step])
@@ -183,14 +215,15 @@ theorem exec_IF_CONS (bc bn : Instr) (pre st : List Val)
     rename_i t xs
     cases xs with
     | nil =>
-      simp only [Impl.exec, Spec.eval, pop1_mk_cons, Res.bind_ok] at hr ⊢
-      exact hE _ pre st hr
+      simp only [Impl.exec, Spec.eval, pop1_mk_cons, Res.bind_ok] at hr hg ⊢
+      exact hE _ pre st hr hg
     | cons x xs =>
-      simp only [Impl.exec, Spec.eval, pop1_mk_cons, Res.bind_ok, push_mk] at hr ⊢
-      exact hE _ pre _ hr
+      simp only [Impl.exec, Spec.eval, pop1_mk_cons, Res.bind_ok, push_mk] at hr hg ⊢
+      exact hE _ pre _ hr hg
 
 theorem exec_LOOP (body : Instr) (pre st : List Val)
-    (hr : Spec.eval true env (f + 1) (.LOOP body) st ≠ .err) :
+    (hr : Spec.eval true env (f + 1) (.LOOP body) st ≠ .stuck)
+    (hg : Spec.eval true env (f + 1) (.LOOP body) st ≠ .offguard) :
     Impl.exec env (f + 1) (.LOOP body) (stk pre st) = (Spec.eval true env (f + 1) (.LOOP body) st).map' (stk pre) := by
   rcases st with _ | ⟨c, st⟩
   · (exfalso; apply hr; simp [Spec.eval, Spec.step])
@@ -199,56 +232,70 @@ theorem exec_LOOP (body : Instr) (pre st : List Val)
     cases b with
     | false => simp [Impl.exec, Spec.eval]
     | true =>
-      simp only [Impl.exec, Spec.eval, pop1_mk_cons, Res.bind_ok] at hr ⊢
-      have h1 := bind_ne_err hr
-      rw [hE body pre st h1]
+      simp only [Impl.exec, Spec.eval, pop1_mk_cons, Res.bind_ok] at hr hg ⊢
+      have h1 := bind_ne_stuck hr
+      have g1 := bind_ne_offguard hg
+      rw [hE body pre st h1 g1]
       cases hq : Spec.eval true env f body st with
-      | err => exact absurd hq h1
-      | failed v => simp
+      | stuck => exact absurd hq h1
+      | failed _ => simp
+      | rtfail => simp
+      | oof => simp
+      | offguard => simp
       | ok st' =>
-        simp only [hq, rbind_ok] at hr
+        simp only [hq, rbind_ok] at hr hg
         simp only [map'_ok, Res.bind_ok, rbind_ok]
-        exact hE _ pre st' hr
+        exact hE _ pre st' hr hg
 
 theorem exec_LOOP_LEFT (body : Instr) (pre st : List Val)
-    (hr : Spec.eval true env (f + 1) (.LOOP_LEFT body) st ≠ .err) :
+    (hr : Spec.eval true env (f + 1) (.LOOP_LEFT body) st ≠ .stuck)
+    (hg : Spec.eval true env (f + 1) (.LOOP_LEFT body) st ≠ .offguard) :
     Impl.exec env (f + 1) (.LOOP_LEFT body) (stk pre st) = (Spec.eval true env (f + 1) (.LOOP_LEFT body) st).map' (stk pre) := by
   rcases st with _ | ⟨c, st⟩
   · (exfalso; apply hr; simp [Spec.eval, Spec.step])
   · cases c <;> first | (exfalso; apply hr; simp [Spec.eval, Spec.step]; done) | skip
     · rename_i v tr
-      simp only [Impl.exec, Spec.eval, pop1_mk_cons, Res.bind_ok, push_mk] at hr ⊢
-      have h1 := bind_ne_err hr
-      rw [hE body pre (v :: st) h1]
+      simp only [Impl.exec, Spec.eval, pop1_mk_cons, Res.bind_ok, push_mk] at hr hg ⊢
+      have h1 := bind_ne_stuck hr
+      have g1 := bind_ne_offguard hg
+      rw [hE body pre (v :: st) h1 g1]
       cases hq : Spec.eval true env f body (v :: st) with
-      | err => exact absurd hq h1
-      | failed v => simp
+      | stuck => exact absurd hq h1
+      | failed _ => simp
+      | rtfail => simp
+      | oof => simp
+      | offguard => simp
       | ok st' =>
-        simp only [hq, rbind_ok] at hr
+        simp only [hq, rbind_ok] at hr hg
         simp only [map'_ok, Res.bind_ok, rbind_ok]
-        exact hE _ pre st' hr
+        exact hE _ pre st' hr hg
     · simp [Impl.exec, Spec.eval]
 
 theorem exec_EXEC (pre st : List Val)
-    (hr : Spec.eval true env (f + 1) .EXEC st ≠ .err) :
+    (hr : Spec.eval true env (f + 1) .EXEC st ≠ .stuck)
+    (hg : Spec.eval true env (f + 1) .EXEC st ≠ .offguard) :
     Impl.exec env (f + 1) .EXEC (stk pre st) = (Spec.eval true env (f + 1) .EXEC st).map' (stk pre) := by
   rcases st with _ | ⟨a, _ | ⟨l, st⟩⟩
   · (exfalso; apply hr; simp [Spec.eval, Spec.step])
   · (exfalso; apply hr; simp [Spec.eval, Spec.step])
   · cases l <;> first | (exfalso; apply hr; simp [Spec.eval, Spec.step]; done) | skip
     rename_i ta tb body
-    simp only [Impl.exec, Spec.eval, pop2_mk_cons, Res.bind_ok] at hr ⊢
+    simp only [Impl.exec, Spec.eval, pop2_mk_cons, Res.bind_ok] at hr hg ⊢
     by_cases ht : typeOf a = ta
-    · simp only [ht, if_true] at hr ⊢
-      have h1 := bind_ne_err hr
-      have := hE body [] [a] h1
+    · simp only [ht, if_true] at hr hg ⊢
+      have h1 := bind_ne_stuck hr
+      have g1 := bind_ne_offguard hg
+      have := hE body [] [a] h1 g1
       simp only [stk, List.nil_append, List.length_nil] at this
       rw [this]
       cases hq : Spec.eval true env f body [a] with
-      | err => exact absurd hq h1
-      | failed v => simp
+      | stuck => exact absurd hq h1
+      | failed _ => simp
+      | rtfail => simp
+      | oof => simp
+      | offguard => simp
       | ok r =>
-        simp only [hq, rbind_ok] at hr
+        simp only [hq, rbind_ok] at hr hg
         simp only [map'_ok, Res.bind_ok, rbind_ok]
         rcases r with _ | ⟨y, _ | ⟨z, r⟩⟩
         · simp at hr
@@ -300,26 +347,27 @@ theorem mapOf_nil_guard (body : Instr) (k v : Ty) (st : List Val) (r : Val)
     · simp [ht] at h
   · simp at h
 
-theorem listOf_ne_failed (g : Bool) (body : Instr) (t : Ty) (st ys : List Val) (w : Val) :
-    Spec.listOf g body t st ys ≠ .failed w := by
-  intro h
-  unfold Spec.listOf at h
-  split at h
-  · split at h
-    · split at h <;> cases h
-    · cases h
-  · split at h <;> cases h
+/-- `listOf` / `mapOf` yield a value, are stuck (elements of different types) or — guard mode — are outside the guard -/
+theorem listOf_outcome (g : Bool) (body : Instr) (t : Ty) (st ys : List Val) :
+    (∃ r, Spec.listOf g body t st ys = .ok r) ∨ Spec.listOf g body t st ys = .stuck ∨
+      Spec.listOf g body t st ys = .offguard := by
+  unfold Spec.listOf
+  split
+  · split
+    · split <;> simp
+    · simp
+  · split <;> simp
 
-theorem mapOf_ne_failed (g : Bool) (body : Instr) (k v : Ty) (st ys : List Val) (w : Val) :
-    Spec.mapOf g body k v st ys ≠ .failed w := by
-  intro h
-  unfold Spec.mapOf at h
-  split at h
-  · split at h
-    · split at h <;> cases h
-    · cases h
-  · split at h <;> cases h
-  · cases h
+theorem mapOf_outcome (g : Bool) (body : Instr) (k v : Ty) (st ys : List Val) :
+    (∃ r, Spec.mapOf g body k v st ys = .ok r) ∨ Spec.mapOf g body k v st ys = .stuck ∨
+      Spec.mapOf g body k v st ys = .offguard := by
+  unfold Spec.mapOf
+  split
+  · split
+    · split <;> simp
+    · simp
+  · split <;> simp
+  · simp
 
 theorem evalMap_nil_items (env : Env) (f : Nat) (body : Instr) (isMap : Bool) (xs st : List Val) (st' : List Val)
     (h : Spec.evalMap true env f body isMap xs st = .ok ([], st')) : xs = [] := by
@@ -332,8 +380,11 @@ theorem evalMap_nil_items (env : Env) (f : Nat) (body : Instr) (isMap : Bool) (x
     | succ f =>
       simp only [Spec.evalMap] at h
       cases hq : Spec.eval true env f body (x :: st) with
-      | err => simp [hq] at h
-      | failed v => simp [hq] at h
+      | stuck => simp [hq] at h
+      | failed _ => simp [hq] at h
+      | rtfail => simp [hq] at h
+      | oof => simp [hq] at h
+      | offguard => simp [hq] at h
       | ok r =>
         simp only [hq, rbind_ok] at h
         cases r with
@@ -344,8 +395,11 @@ theorem evalMap_nil_items (env : Env) (f : Nat) (body : Instr) (isMap : Bool) (x
               fun (p : List Val × List Val) => Res.ok (item :: p.1, p.2)) ≠ .ok ([], st') := by
             intro item hc
             cases hm : Spec.evalMap true env f body isMap xs r' with
-            | err => simp [hm] at hc
-            | failed v => simp [hm] at hc
+            | stuck => simp [hm] at hc
+            | failed _ => simp [hm] at hc
+            | rtfail => simp [hm] at hc
+            | oof => simp [hm] at hc
+            | offguard => simp [hm] at hc
             | ok p => simp [hm] at hc
           cases isMap with
           | false => simp only [rbind_ok] at h; exact key y h
@@ -360,82 +414,92 @@ variable (env : Env) (f : Nat) (hE : ExecOK env f) (hS : SeqOK env f) (hI : Iter
 
 include hI in
 theorem exec_ITER (body : Instr) (pre st : List Val)
-    (hr : Spec.eval true env (f + 1) (.ITER body) st ≠ .err) :
+    (hr : Spec.eval true env (f + 1) (.ITER body) st ≠ .stuck)
+    (hg : Spec.eval true env (f + 1) (.ITER body) st ≠ .offguard) :
     Impl.exec env (f + 1) (.ITER body) (stk pre st) = (Spec.eval true env (f + 1) (.ITER body) st).map' (stk pre) := by
   rcases st with _ | ⟨c, st⟩
   · (exfalso; apply hr; simp [Spec.eval, Spec.step])
   · cases c <;> first | (exfalso; apply hr; simp [Spec.eval, Spec.step]; done) | skip
     all_goals
-      simp only [Impl.exec, Spec.eval, pop1_mk_cons, Res.bind_ok] at hr ⊢
-      exact hI body _ pre st hr
+      simp only [Impl.exec, Spec.eval, pop1_mk_cons, Res.bind_ok] at hr hg ⊢
+      exact hI body _ pre st hr hg
 
 include hM in
 theorem exec_MAP (body : Instr) (pre st : List Val)
-    (hr : Spec.eval true env (f + 1) (.MAP body) st ≠ .err) :
+    (hr : Spec.eval true env (f + 1) (.MAP body) st ≠ .stuck)
+    (hg : Spec.eval true env (f + 1) (.MAP body) st ≠ .offguard) :
     Impl.exec env (f + 1) (.MAP body) (stk pre st) = (Spec.eval true env (f + 1) (.MAP body) st).map' (stk pre) := by
   rcases st with _ | ⟨c, st⟩
   · (exfalso; apply hr; simp [Spec.eval, Spec.step])
   · cases c <;> first | (exfalso; apply hr; simp [Spec.eval, Spec.step]; done) | skip
     · -- list
       rename_i t xs
-      simp only [Impl.exec, Spec.eval, pop1_mk_cons, Res.bind_ok] at hr ⊢
-      have h1 := bind_ne_err hr
-      rw [hM body false xs pre st h1]
+      simp only [Impl.exec, Spec.eval, pop1_mk_cons, Res.bind_ok] at hr hg ⊢
+      have h1 := bind_ne_stuck hr
+      have g1 := bind_ne_offguard hg
+      rw [hM body false xs pre st h1 g1]
       cases hq : Spec.evalMap true env f body false xs st with
-      | err => exact absurd hq h1
-      | failed v => simp
+      | stuck => exact absurd hq h1
+      | failed _ => simp
+      | rtfail => simp
+      | oof => simp
+      | offguard => simp
       | ok p =>
         obtain ⟨ys, st'⟩ := p
-        simp only [hq, rbind_ok] at hr
+        simp only [hq, rbind_ok] at hr hg
         simp only [map'_ok, Res.bind_ok, rbind_ok]
-        have h2 := bind_ne_err hr
+        have h2 := bind_ne_stuck hr
+        have g2 := bind_ne_offguard hg
         cases ys with
         | nil =>
           have hx := evalMap_nil_items env f body false xs st st' hq
           subst hx
-          cases hl : Spec.listOf true body t st [] with
-          | err => exact absurd hl h2
-          | failed v => exact absurd hl (listOf_ne_failed _ _ _ _ _ _)
-          | ok r =>
-            have := listOf_nil_guard body t st r hl
+          rcases listOf_outcome true body t st [] with ⟨r, hl⟩ | hl | hl
+          · have := listOf_nil_guard body t st r hl
             subst this
-            simp
+            simp [hl]
+          · exact absurd hl h2
+          · exact absurd hl g2
         | cons y ys =>
           rw [listFromItems_eq (y :: ys) (by simp) body t st]
-          cases hl : Spec.listOf true body t st (y :: ys) with
-          | err => exact absurd hl h2
-          | failed v => exact absurd hl (listOf_ne_failed _ _ _ _ _ _)
-          | ok r => simp
+          rcases listOf_outcome true body t st (y :: ys) with ⟨r, hl⟩ | hl | hl
+          · simp [hl]
+          · exact absurd hl h2
+          · exact absurd hl g2
     · -- map
       rename_i k v xs
-      simp only [Impl.exec, Spec.eval, pop1_mk_cons, Res.bind_ok] at hr ⊢
-      have h1 := bind_ne_err hr
-      rw [hM body true xs pre st h1]
+      simp only [Impl.exec, Spec.eval, pop1_mk_cons, Res.bind_ok] at hr hg ⊢
+      have h1 := bind_ne_stuck hr
+      have g1 := bind_ne_offguard hg
+      rw [hM body true xs pre st h1 g1]
       cases hq : Spec.evalMap true env f body true xs st with
-      | err => exact absurd hq h1
-      | failed v => simp
+      | stuck => exact absurd hq h1
+      | failed _ => simp
+      | rtfail => simp
+      | oof => simp
+      | offguard => simp
       | ok p =>
         obtain ⟨ys, st'⟩ := p
-        simp only [hq, rbind_ok] at hr
+        simp only [hq, rbind_ok] at hr hg
         simp only [map'_ok, Res.bind_ok, rbind_ok]
-        have h2 := bind_ne_err hr
+        have h2 := bind_ne_stuck hr
+        have g2 := bind_ne_offguard hg
         cases ys with
         | nil =>
           have hx := evalMap_nil_items env f body true xs st st' hq
           subst hx
-          cases hl : Spec.mapOf true body k v st [] with
-          | err => exact absurd hl h2
-          | failed w => exact absurd hl (mapOf_ne_failed _ _ _ _ _ _ _)
-          | ok r =>
-            have := mapOf_nil_guard body k v st r hl
+          rcases mapOf_outcome true body k v st [] with ⟨r, hl⟩ | hl | hl
+          · have := mapOf_nil_guard body k v st r hl
             subst this
-            simp
+            simp [hl]
+          · exact absurd hl h2
+          · exact absurd hl g2
         | cons y ys =>
           rw [mapFromItems_eq (y :: ys) (by simp) body k v st]
-          cases hl : Spec.mapOf true body k v st (y :: ys) with
-          | err => exact absurd hl h2
-          | failed w => exact absurd hl (mapOf_ne_failed _ _ _ _ _ _ _)
-          | ok r => simp
+          rcases mapOf_outcome true body k v st (y :: ys) with ⟨r, hl⟩ | hl | hl
+          · simp [hl]
+          · exact absurd hl h2
+          · exact absurd hl g2
 
 end
 end Interp
@@ -459,51 +523,48 @@ theorem spec_eval_simple (g : Bool) (env : Env) (f : Nat) (i : Instr) (h : isCon
 
 theorem exec_succ (env : Env) (f : Nat) (hE : ExecOK env f) (hS : SeqOK env f) (hI : IterOK env f) (hM : MapOK env f) :
     ExecOK env (f + 1) := by
-  intro i pre st hr
+  intro i pre st hr hg
   cases i
   case seq is =>
-    simp only [Impl.exec, Spec.eval] at hr ⊢
-    exact hS is pre st hr
-  case DIP body => exact exec_DIP env f hE body pre st hr
-  case DIPN n body => exact exec_DIPN env f hE n body pre st hr
-  case IF a b => exact exec_IF env f hE a b pre st hr
-  case IF_NONE a b => exact exec_IF_NONE env f hE a b pre st hr
-  case IF_LEFT a b => exact exec_IF_LEFT env f hE a b pre st hr
-  case IF_CONS a b => exact exec_IF_CONS env f hE a b pre st hr
-  case LOOP b => exact exec_LOOP env f hE b pre st hr
-  case LOOP_LEFT b => exact exec_LOOP_LEFT env f hE b pre st hr
-  case ITER b => exact exec_ITER env f hI b pre st hr
-  case MAP b => exact exec_MAP env f hM b pre st hr
-  case EXEC => exact exec_EXEC env f hE pre st hr
+    simp only [Impl.exec, Spec.eval] at hr hg ⊢
+    exact hS is pre st hr hg
+  case DIP body => exact exec_DIP env f hE body pre st hr hg
+  case DIPN n body => exact exec_DIPN env f hE n body pre st hr hg
+  case IF a b => exact exec_IF env f hE a b pre st hr hg
+  case IF_NONE a b => exact exec_IF_NONE env f hE a b pre st hr hg
+  case IF_LEFT a b => exact exec_IF_LEFT env f hE a b pre st hr hg
+  case IF_CONS a b => exact exec_IF_CONS env f hE a b pre st hr hg
+  case LOOP b => exact exec_LOOP env f hE b pre st hr hg
+  case LOOP_LEFT b => exact exec_LOOP_LEFT env f hE b pre st hr hg
+  case ITER b => exact exec_ITER env f hI b pre st hr hg
+  case MAP b => exact exec_MAP env f hM b pre st hr hg
+  case EXEC => exact exec_EXEC env f hE pre st hr hg
   all_goals
-    rw [spec_eval_simple true env f _ rfl st] at hr ⊢
+    rw [spec_eval_simple true env f _ rfl st] at hr hg ⊢
     rw [impl_exec_simple env f _ rfl]
     exact step_refines env _ pre st hr
 
 theorem all_ok (env : Env) : ∀ f, ExecOK env f ∧ SeqOK env f ∧ IterOK env f ∧ MapOK env f
   | 0 => by
     refine ⟨?_, ?_, ?_, ?_⟩
-    · intro i pre st hr; exact absurd (by simp [Spec.eval]) hr
-    · intro is pre st hr
-      cases is with
-      | nil => simp [Impl.execSeq, Spec.evalSeq]
-      | cons i is => exact absurd (by simp [Spec.evalSeq]) hr
-    · intro body xs pre st hr
-      cases xs with
-      | nil => simp [Impl.iterLoop, Spec.evalIter]
-      | cons x xs => exact absurd (by simp [Spec.evalIter]) hr
-    · intro body isMap xs pre st hr
-      cases xs with
-      | nil => simp [Impl.mapLoop, Spec.evalMap]
-      | cons x xs => exact absurd (by simp [Spec.evalMap]) hr
+    · intro i pre st _ _; simp [Impl.exec, Spec.eval]
+    · intro is pre st _ _
+      cases is <;> simp [Impl.execSeq, Spec.evalSeq]
+    · intro body xs pre st _ _
+      cases xs <;> simp [Impl.iterLoop, Spec.evalIter]
+    · intro body isMap xs pre st _ _
+      cases xs <;> simp [Impl.mapLoop, Spec.evalMap]
   | f + 1 =>
     have ⟨hE, hS, hI, hM⟩ := all_ok env f
     ⟨exec_succ env f hE hS hI hM, seq_succ env f hE hS, iter_succ env f hE hI, map_succ env f hE hM⟩
 
-/-- **refinement**: for every program, fuel, environment, stack and protected prefix -/
+/-- **refinement**: for every program, fuel, environment, stack and protected prefix — whenever the reference
+semantics (guard mode) is not stuck and stays inside the guard, the machine of pytezos computes its outcome: the same
+stack under the same prefix, the same FAILWITH value, a runtime failure where the reference fails at run time, and it
+runs out of the same fuel bound exactly when the reference does -/
 theorem exec_refines_spec (env : Env) (fuel : Nat) (i : Instr) (pre st : List Val)
-    (h : Spec.eval true env fuel i st ≠ .err) :
+    (h : Spec.eval true env fuel i st ≠ .stuck) (hg : Spec.eval true env fuel i st ≠ .offguard) :
     Impl.exec env fuel i (stk pre st) = (Spec.eval true env fuel i st).map' (stk pre) :=
-  (all_ok env fuel).1 i pre st h
+  (all_ok env fuel).1 i pre st h hg
 
 end Interp
